@@ -279,6 +279,53 @@ Theorem c17_load_outcomes :
 Proof. exact c17_load_outcomes_holds. Qed.
 Print Assumptions c17_load_outcomes.
 
+(* ============================ the engine loop and the match mode =========================== *)
+(* MerchantEngine.parse as the code runs it — one pass over the lines with current_rule / rule_start_line,
+   _add_rule appending to self.rules, the engine carrying its match mode — reads exactly what the grouped
+   model reads (so every theorem above holds of it), in either mode, and leaves the mode alone. *)
+Theorem c17_engine_loop_reads_the_same :
+  forall pyparse mode ls,
+    res_map mfile_of (parse_engine pyparse mode ls) = parse_merchants pyparse ls /\
+    (forall e, parse_engine pyparse mode ls = Ok e -> e_mode e = mode).
+Proof. exact parse_engine_eq. Qed.
+Print Assumptions c17_engine_loop_reads_the_same.
+
+Theorem c17_match_mode_independent :
+  forall pyparse m1 m2 ls,
+    res_map mfile_of (parse_engine pyparse m1 ls) = res_map mfile_of (parse_engine pyparse m2 ls).
+Proof. exact parse_engine_mode_independent. Qed.
+Print Assumptions c17_match_mode_independent.
+
+(* ============================ the report memory, for every history of calls =================== *)
+(* One process; any sequence of loader calls on any paths (each either loads or fails with a message) and
+   of clear_engine_cache() calls.  run_calls gives, call by call, whether a message reached the user. *)
+
+(* an error that has not occurred before in the process reaches the user *)
+Theorem c17_new_load_error_reaches_user :
+  forall (P E : Type) peq eeq, (forall a b, peq a b = true <-> a = b) -> (forall a b, eeq a b = true <-> a = b) ->
+  forall shown pre (p : P) (e : E) post,
+    known P E peq eeq p e shown = false -> (forall c, In c pre -> c <> Load p (Some e)) ->
+    nth_error (run_calls P E peq eeq shown (pre ++ Load p (Some e) :: post)) (length pre) = Some true.
+Proof. exact new_error_is_reported. Qed.
+Print Assumptions c17_new_load_error_reaches_user.
+
+(* no error is ever lost: a failing call is silent only if the very same (path, message) was shown by an
+   earlier call of this process and the memory has not been cleared since *)
+Theorem c17_no_load_error_is_lost :
+  forall (P E : Type) peq eeq, (forall a b, peq a b = true <-> a = b) -> (forall a b, eeq a b = true <-> a = b) ->
+  forall pre (p : P) (e : E) post,
+    nth_error (run_calls P E peq eeq [] (pre ++ Load p (Some e) :: post)) (length pre) = Some false ->
+    exists a b, pre = a ++ Load p (Some e) :: b /\ (forall c, In c b -> c <> ClearCache) /\
+                nth_error (run_calls P E peq eeq [] (pre ++ Load p (Some e) :: post)) (length a) = Some true.
+Proof. exact silent_error_was_shown. Qed.
+Print Assumptions c17_no_load_error_is_lost.
+
+Theorem c17_loaded_file_is_quiet :
+  forall (P E : Type) peq eeq shown pre (p : P) post,
+    nth_error (run_calls P E peq eeq shown (pre ++ Load p None :: post)) (length pre) = Some false.
+Proof. exact loaded_is_quiet. Qed.
+Print Assumptions c17_loaded_file_is_quiet.
+
 (* ============================ non-vacuity =================================================== *)
 Definition cr : string := String (ascii_of_nat 13) "".
 Definition tab : string := String (ascii_of_nat 9) "".
@@ -352,3 +399,19 @@ Proof.
   cbv zeta. split; [reflexivity|]. split; [repeat constructor|]. split; [|vm_compute; reflexivity].
   vm_compute. repeat constructor; intros H; repeat (destruct H as [H|H]; try discriminate H); assumption.
 Qed.
+
+(* the engine loop on a file with priorities out of order: rules in FILE order in both modes *)
+Example c17_example_engine :
+  let ls := ["v = 1"; "[Low]"; "match: x"; "category: C"; "priority: 1"; "[High]"; "priority: 100"; "match: y"; "tags: t"] in
+  res_map (fun e => map r_name (e_rules e)) (parse_engine (fun _ => true) MostSpecific ls) = Ok ["Low"; "High"] /\
+  res_map (fun e => map r_priority (e_rules e)) (parse_engine (fun _ => true) FirstMatch ls) = Ok [1%Z; 100%Z] /\
+  parse_engine (fun _ => true) MostSpecific ["[A]"; "match: x"; "category: c"; "[B]"; "tags: t"] = Err 4 EMissingMatch.
+Proof. vm_compute. repeat split; reflexivity. Qed.
+
+(* a history: two different errors on one path, the first again, a clear, the first once more; a second path *)
+Example c17_example_report_memory :
+  run_calls nat string Nat.eqb String.eqb []
+    [Load 0 (Some "Line 1: a"); Load 0 (Some "Line 1: a"); Load 0 (Some "Line 2: b"); Load 0 None; Load 0 (Some "Line 1: a");
+     Load 1 (Some "Line 1: a"); ClearCache; Load 0 (Some "Line 1: a")]
+  = [true; false; true; false; false; true; false; true].
+Proof. vm_compute. reflexivity. Qed.
